@@ -788,6 +788,60 @@ def job_cfg_lists(job, front, family, accepted, rejected, nsym=6):
     return job.solve()
 
 
+# ------------------------------------------------------------------------------------------ automata_checker front end
+def job_automata_checker(job, kind, n, k, language, length):
+    """automata_checker.check_dfa_for_given_language / check_nfa_for_given_language: the automaton arrives as Python lists and
+    sets (as the web front end sends it), the verdict is a dict {'correct': ..., 'feedback': ...}"""
+    import gambatools.automata_checker as AC
+    from .oracles import DfaView, NfaView
+    job.functions('automata_checker', ['check_dfa_for_given_language', 'check_nfa_for_given_language', '_compare_words'])
+    d = E.dag
+    if kind == 'dfa':
+        A, names, syms = c.sym_dfa(n, k, tag='A')
+        view = DfaView(A, names, syms)
+        trans = L.GList([(q, a, A.delta.m[(q, a)][1]) for q in names for a in syms])
+    else:
+        A, names, syms = c.sym_nfa(n, k, eps='', tag='A', partial=False)
+        for q in names:             # no epsilon moves: the list interface has no notation for them
+            for t in names:
+                A.delta.m[(q, '')][1].m[t] = FALSE
+        view = NfaView(A, names, syms)
+        trans = L.GList._guarded([(A.delta.m[(q, a)][1].m[t], (q, a, t)) for q in names for a in syms for t in names], sep=True)
+    job.inputs['answer'] = A
+    job.decoders['answer'] = view.to_json
+    rp = ('automata_checker', {'kind': kind, 'answer': view.to_json, 'language': language, 'length': length})
+    rp = (rp[0], {('ans_kind' if k_ == 'kind' else k_): v for k_, v in rp[1].items()})
+    fn = AC.check_dfa_for_given_language if kind == 'dfa' else AC.check_nfa_for_given_language
+    res = job.call(fn, L.GSet(names), trans, L.GSet([names[0]]), L._setview(A.F), language, length, replay=rp)
+    job.lifted()
+    if res is None:
+        return job.solve()
+    expected = set('' if w == 'ε' else w for w in language.split())
+    words = sorted(set(c.words_upto(syms, length)) | expected, key=lambda w: (len(w), w))
+    inb = lambda w: len(w) <= length and all(ch in syms for ch in w)
+    acc = {w: (view.accepts(w) if inb(w) else FALSE) for w in words}
+    exp = {w: (TRUE if w in expected else FALSE) for w in words}
+    correct = E.lit(L.CMP('Eq', L.GETITEM(res, 'correct'), True))
+    job.oblige("'correct': True only if the accepted words up to the length bound are exactly the listed words",
+               d.and_(correct, d.any_(d.iff(acc[w], exp[w]) ^ 1 for w in words)), replay=rp)
+    fb = L.CALLM(res, 'get', 'feedback', '')
+    for g, text in E.alts(fb):
+        if not isinstance(text, str) or not text.startswith("word '"):
+            continue
+        w = text.split("'")[1]
+        w = '' if w == 'ε' else w
+        if 'should not be accepted' in text:
+            ok = d.and_(acc.get(w, FALSE), exp.get(w, FALSE) ^ 1)
+        else:
+            ok = d.and_(acc.get(w, FALSE) ^ 1, exp.get(w, FALSE))
+        job.oblige('feedback %r only if that word really separates answer and word list with that polarity' % text, d.and_(g, ok ^ 1), replay=rp)
+    job.must_reach("'correct': True for some answer", correct)
+    job.must_reach("'correct': False for some answer", correct ^ 1)
+    job.failures_as_obligations(replay=rp)
+    job.sample_replays = 3
+    return job.solve()
+
+
 def jobs(tier):
     J = []
 
@@ -838,6 +892,9 @@ def jobs(tier):
         add('cfg_accepts_rejects_%s' % fam, job_cfg_lists, front='accepts_rejects', family=fam, accepted=acc, rejected='a ba abab', timeout=tmo)
         add('cfg_accepts_%s' % fam, job_cfg_lists, front='accepts', family=fam, accepted=acc.replace('ε', '_'), rejected='', timeout=tmo)
         add('cfg_rejects_%s' % fam, job_cfg_lists, front='rejects', family=fam, accepted='', rejected='_ b abab', timeout=tmo)
+    add('automata_checker_dfa_n2_k1', job_automata_checker, kind='dfa', n=2, k=1, language='ε aa', length=3, timeout=tmo)
+    add('automata_checker_dfa_n2_k2', job_automata_checker, kind='dfa', n=2, k=2, language='a ab ba', length=2, timeout=tmo)
+    add('automata_checker_nfa_n2_k1', job_automata_checker, kind='nfa', n=2, k=1, language='a aaa', length=3, timeout=tmo)
     # job_chomsky_checker (cfg_check_chomsky judging wrong answers) is NOT registered: with four extra-rule bits on top of the
     # grammar bits the lifted cfg_to_chomsky + enumerator did not finish in 400 s (see DESIGN.md 9.3)
     add('cyk_checker_ab', job_cyk_checker, word='ab', timeout=tmo)
@@ -1141,6 +1198,34 @@ def _replay_cfg_lists(rp):
     return bad, {'printed': lines, 'criterion_holds': crit}
 
 
-REPLAY = {'lang': _replay_lang, 'cfg_lists': _replay_cfg_lists, 'chomsky_checker': _replay_chomsky_checker, 'cyk_checker': _replay_cyk_checker, 'derivation': _replay_derivation, 'compare': _replay_compare, 'complement': _replay_complement, 'product': _replay_product, 'reverse': _replay_reverse,
+def _replay_automata_checker(rp):
+    import gambatools.automata_checker as AC
+    A = rp['answer']
+    kind = rp['ans_kind']
+    if kind == 'dfa':
+        trans = [(p, a, t) for p, a, t in A['delta']]
+        fn, accepts = AC.check_dfa_for_given_language, nat.ref_dfa_accepts
+    else:
+        trans = [(p, a, t) for p, a, ts in A['delta'] for t in ts if a != A.get('epsilon', '')]
+        fn, accepts = AC.check_nfa_for_given_language, nat.ref_nfa_accepts
+    res = fn(set(A['Q']), trans, {A['q0']}, set(A['F']), rp['language'], rp['length'])
+    expected = set('' if w == 'ε' else w for w in rp['language'].split())
+    words = set(nat.words_upto(A['Sigma'], rp['length'])) | expected
+    inb = lambda w: len(w) <= rp['length'] and all(ch in A['Sigma'] for ch in w)
+    acc = lambda w: inb(w) and accepts(A, w)
+    agree = all(acc(w) == (w in expected) for w in words)
+    bad = bool(res.get('correct')) and not agree
+    fbk = res.get('feedback', '')
+    if fbk.startswith("word '"):
+        w = fbk.split("'")[1]
+        w = '' if w == 'ε' else w
+        if 'should not be accepted' in fbk:
+            bad = bad or not (acc(w) and w not in expected)
+        else:
+            bad = bad or not (not acc(w) and w in expected)
+    return bad, {'result': res, 'languages agree': agree}
+
+
+REPLAY = {'automata_checker': _replay_automata_checker, 'lang': _replay_lang, 'cfg_lists': _replay_cfg_lists, 'chomsky_checker': _replay_chomsky_checker, 'cyk_checker': _replay_cyk_checker, 'derivation': _replay_derivation, 'compare': _replay_compare, 'complement': _replay_complement, 'product': _replay_product, 'reverse': _replay_reverse,
           'minimal': _replay_minimal, 'nfa2dfa': _replay_nfa2dfa, 'from_words': _replay_from_words,
           'accepts_rejects': _replay_accepts_rejects, 'dfa2regexp': _replay_dfa2regexp}
